@@ -1,0 +1,122 @@
+//! Verification-only accessors.  Compiled only with `--cfg daniel729_chess_verif`;
+//! nothing here is reachable from a normal build.
+//!
+//! The module is a child of `chess`, so it can name the private sub-modules and the
+//! private fields of `Game`; it only re-exports and copies, it changes no behaviour.
+
+pub use super::gamestate::GameState;
+pub use super::piece::{Piece, PieceType};
+pub use super::position::Position;
+/// The piece-square tables, re-exported item by item (the module itself is private).
+pub mod scores {
+    pub use super::super::scores::*;
+}
+
+use super::{Game, GamePhase, Move, Player, Score};
+use arrayvec::ArrayVec;
+use std::cell::Cell;
+
+/// Every field of a `Game`, spelled out.
+pub struct Parts {
+    pub board: [Option<Piece>; 64],
+    pub past_scores: [Score; 64],
+    pub past_hashes: [u64; 64],
+    pub score: Score,
+    pub hash: u64,
+    pub current_player: Player,
+    pub king_positions: [Position; 2],
+    pub endgame_king_table: bool,
+    pub phase: GamePhase,
+}
+
+impl Game {
+    /// Build a game from explicit fields.  `states` becomes the per-ply state stack
+    /// (must be non-empty, at most 512 entries), `move_stack` the move record.
+    pub fn verif_from_parts(parts: Parts, states: &[GameState], move_stack: Vec<Move>) -> Self {
+        let mut state = ArrayVec::new();
+        for s in states {
+            state.push(*s);
+        }
+        let king_table: &'static [i16; 64] = if parts.endgame_king_table {
+            &scores::KING_SCORES_END
+        } else {
+            &scores::KING_SCORES_MIDDLE
+        };
+        Game {
+            score: parts.score,
+            current_player: parts.current_player,
+            move_stack,
+            phase: parts.phase,
+            hash: parts.hash,
+            board: parts.board,
+            past_scores: parts.past_scores,
+            past_hashes: parts.past_hashes,
+            piece_scores: [
+                Cell::new(&scores::QUEEN_SCORES),
+                Cell::new(&scores::ROOK_SCORES),
+                Cell::new(&scores::BISHOP_SCORES),
+                Cell::new(&scores::KNIGHT_SCORES),
+                Cell::new(&scores::PAWN_SCORES),
+                Cell::new(king_table),
+            ],
+            king_positions: parts.king_positions,
+            state,
+        }
+    }
+
+    pub fn verif_board(&self) -> &[Option<Piece>; 64] {
+        &self.board
+    }
+
+    pub fn verif_past_scores(&self) -> &[Score; 64] {
+        &self.past_scores
+    }
+
+    pub fn verif_past_hashes(&self) -> &[u64; 64] {
+        &self.past_hashes
+    }
+
+    pub fn verif_king_positions(&self) -> [Position; 2] {
+        self.king_positions
+    }
+
+    pub fn verif_phase(&self) -> GamePhase {
+        self.phase
+    }
+
+    /// Which table each piece kind is currently valued by (index = `PieceType as usize`).
+    pub fn verif_piece_score_tables(&self) -> [&'static [i16; 64]; 6] {
+        [
+            self.piece_scores[0].get(),
+            self.piece_scores[1].get(),
+            self.piece_scores[2].get(),
+            self.piece_scores[3].get(),
+            self.piece_scores[4].get(),
+            self.piece_scores[5].get(),
+        ]
+    }
+
+    pub fn verif_state_at(&self, index: usize) -> GameState {
+        self.state[index]
+    }
+
+    pub fn verif_set_hash(&mut self, hash: u64) {
+        self.hash = hash;
+    }
+
+    pub fn verif_set_score(&mut self, score: Score) {
+        self.score = score;
+    }
+
+    pub fn verif_set_move_stack(&mut self, move_stack: Vec<Move>) {
+        self.move_stack = move_stack;
+    }
+
+    pub fn verif_set_position(&mut self, position: Position, place: Option<Piece>) {
+        self.set_position(position, place)
+    }
+
+    pub fn verif_is_endgame(&self) -> bool {
+        self.is_endgame()
+    }
+}
